@@ -5,6 +5,7 @@ import (
 	"encoding/json"
 	"fmt"
 	"math/big"
+	"strings"
 
 	ledger "github.com/formancehq/ledger/internal"
 	"github.com/formancehq/ledger/xverif/lib/memstore"
@@ -830,5 +831,86 @@ func init() {
 	}
 	plans["C06"] = func() []planItem {
 		return append(b06(), planItem{register(worldScenario("C06", specCloseInFlightFault, ackOracle)), 2, 3})
+	}
+}
+
+// the injected store failures of the "context cancelled while the statement ran" kind (an error wrapping context.Canceled, passed
+// through the tree's own sqlutils.PostgresError): whatever special treatment cancellation gets anywhere between the store and the
+// job runner, a failed insertion is not a persisted one and a failed read is not an empty result.
+func withCancelKind(sp worldSpec) worldSpec {
+	out := sp
+	out.Name = sp.Name + "-cancelkind"
+	out.CancelKind = true
+	return out
+}
+
+func init() {
+	b05, b06, b07 := plans["C05"], plans["C06"], plans["C07"]
+	plans["C05"] = func() []planItem {
+		return append(b05(),
+			planItem{register(worldScenario("C05", withCancelKind(specFaultThenWrites), chainOracle)), 2, 3},
+			planItem{register(worldScenario("C05", withCancelKind(specFaultInsert), chainOracle)), 2, 3})
+	}
+	plans["C06"] = func() []planItem {
+		return append(b06(),
+			planItem{register(worldScenario("C06", withCancelKind(specFaultInsert), ackOracle)), 1, 2},
+			planItem{register(worldScenario("C06", withCancelKind(specFaultReadsEachKind), ackOracle)), 1, 2})
+	}
+	plans["C07"] = func() []planItem {
+		return append(b07(), planItem{register(worldScenario("C07", withCancelKind(withReadFaults(specIK2)), ikOracle)), 2, 3})
+	}
+}
+
+// every kind of failure a PostgreSQL-backed store reports (faultKinds) on the reads behind an idempotency key and a reference
+func withFaultKind(sp worldSpec, kind string) worldSpec {
+	out := sp
+	out.Name = sp.Name + "-" + strings.ReplaceAll(kind, ":", "")
+	out.FaultKind = kind
+	return out
+}
+
+func init() {
+	b07, b11, b10 := plans["C07"], plans["C11"], plans["C10"]
+	plans["C07"] = func() []planItem {
+		out := b07()
+		for _, k := range faultKinds[1:] {
+			out = append(out, planItem{register(worldScenario("C07", withFaultKind(withReadFaults(specIK2), k), ikOracle)), 2, 3})
+		}
+		return out
+	}
+	plans["C11"] = func() []planItem {
+		out := b11()
+		for _, k := range faultKinds {
+			out = append(out, planItem{register(worldScenario("C11", withFaultKind(withReadFaults(specRef2), k), refOracle)), 2, 3})
+		}
+		return out
+	}
+	plans["C10"] = func() []planItem {
+		out := b10()
+		for _, k := range faultKinds {
+			out = append(out, planItem{register(worldScenario("C10", withFaultKind(withReadFaults(specRevertSame2), k), revertOracle, spendOracle)), 2, 3})
+		}
+		return out
+	}
+}
+
+// C07: shutdown with KEYED writes in flight: a success reported for a key is that key's effect, also when the engine is being closed
+// (a write acknowledged from the queue without being persisted would be executed afresh by the client's retry after the restart)
+func withKeys(sp worldSpec) worldSpec {
+	out := sp
+	out.Name = sp.Name + "-keyed"
+	out.Gen1 = append([]reqSpec(nil), sp.Gen1...)
+	for i := range out.Gen1 {
+		out.Gen1[i].IK = fmt.Sprintf("key-%d", i)
+	}
+	return out
+}
+
+func init() {
+	b07 := plans["C07"]
+	plans["C07"] = func() []planItem {
+		return append(b07(),
+			planItem{register(worldScenario("C07", withKeys(specCloseInFlight), ikOracle)), 2, 3},
+			planItem{register(worldScenario("C07", withKeys(specCloseInFlightFault), ikOracle)), 2, 3})
 	}
 }
